@@ -3,6 +3,7 @@ import RlibModel.Model.Iter
 
 Cases:  `sub:<ty> x` / `sup:<ty> x`   collected `iter_submasks` / `iter_supermasks` of the mask `x` of type `ty`
         `np a,b,c`                    `next_permutation` on the sequence: new content and flag
+        `npk K a,b,c`                 `K` successive `next_permutation` calls (digest of all intermediate results)
         `perms a,b,c`                 `iter_permutations(..).collect()`
         `n4|n4d|n8 n m i j`           collected neighbour iterators
 
@@ -18,6 +19,20 @@ def showNp : Except Panic (List Int × Bool) → String
   | .error e => e.toString
   | .ok (d, b) => s!"{showInts d} {showBool b}"
 
+/-- `npk K d`: `K` successive calls of `step`; digest of every intermediate content and flag. -/
+def walk (step : List Int → Except Panic (List Int × Bool)) :
+    Nat → List Int → UInt64 → Nat → Except Panic (List Int × UInt64 × Nat)
+  | 0, d, h, falses => .ok (d, h, falses)
+  | k + 1, d, h, falses =>
+    match step d with
+    | .error e => .error e
+    | .ok (d', b) =>
+      walk step k d' (hashStep (hashList h d') (if b then 1 else 0)) (if b then falses else falses + 1)
+
+def showWalk (k : Nat) : Except Panic (List Int × UInt64 × Nat) → String
+  | .error e => e.toString
+  | .ok (d, h, falses) => s!"steps={k} last={showInts d} falses={falses} h={toHex h.toNat 16}"
+
 def handle (line : String) : String :=
   match tokens line with
   | [] => badLine line
@@ -28,7 +43,7 @@ def handle (line : String) : String :=
     | some xi =>
       let x := (wrapU t.bits xi).toNat
       if popcount t.bits x > 24 then answer "refused:too-many-elements" "any" else
-      let spec := if x < 4096 then specSubmasks x else (subsAsc x).reverse
+      let spec := if x < 256 then specSubmasks x else (subsAsc x).reverse
       answer (showMasks t (iterSubmasks t.bits x)) (showMasks t spec)
     | none => badLine line
   | ("sup", some t), [xs] =>
@@ -45,6 +60,14 @@ def handle (line : String) : String :=
       let spec := if d.length ≤ 6 then specNextPermutation d else nextPermutation d
       answer (showNp (nextPermutationIdx d)) (showNp (.ok spec))
     | none => badLine line
+  | ("npk", none), [ks, ds] =>
+    match parseNat? ks, parseIntsComma? ds with
+    | some k, some d =>
+      if k > 100000 ∨ d.length > 9 then answer "refused:too-many-elements" "any" else
+      let specStep : List Int → Except Panic (List Int × Bool) :=
+        fun u => .ok (if u.length ≤ 6 then specNextPermutation u else nextPermutation u)
+      answer (showWalk k (walk nextPermutationIdx k d hashInit 0)) (showWalk k (walk specStep k d hashInit 0))
+    | _, _ => badLine line
   | ("perms", none), [ds] =>
     match parseIntsComma? ds with
     | some d =>
